@@ -91,6 +91,22 @@ def rule_memo_dir(ctx, f, imp):
                       "a memo entry is not old -> new (key from the old object: %s, key from a created object: %s, value from a created object: %s): an object reached twice "
                       "is copied twice and references to it are not shared in the target" % (k_old, k_new, v_new), t["span"], detail="map.insert(old, new)")
     ctx.floor("C20-PROV-memo", n, 3, "insertions into the old -> new memo (clone_ref, clone_plainref, clone_rcref)")
+    # ... and what the clone methods hand back is the new reference (from the memo or freshly created), never the old one
+    m = 0
+    for name, b in sorted(imp.items()):
+        fl = Flow(b)
+        from flow import PASS_LAST
+        pt = PASS_LAST + ("get_ref", "get_inner", "get_plain_ref", "from_id")
+        for bi, t in F.calls(b):
+            if last_seg(F.callee_name(t)) == "new" and ("RcRef" in F.callee_name(t) or "Ref::" in F.callee_name(t)) and t["args"]:
+                l = arg_local(t, 0)
+                ats = fl.origins(l, passthrough=pt) if l is not None else []
+                new_ = any(a[0] == "call" and (last_seg(a[1]) in NEW or (last_seg(a[1]) == "get" and "HashMap" in a[1])) for a in ats)
+                old_ = any(a[0] == "arg" and a[1] >= 2 for a in ats) and not new_
+                m += 1
+                ctx.check(new_ and not old_, "C20-PROV-memo", "%s#returned-ref@%d" % (b["id"], m), "a clone method builds the reference it returns from the old object's number: the "
+                          "imported object is referred to by a number of the source document", t["span"], detail="returned reference = memo value / created reference")
+    ctx.floor("C20-PROV-memo", m, 2, "references built by the clone methods")
 
 
 def rule_once(ctx, f, imp):
@@ -272,10 +288,52 @@ def rule_closure(ctx, f):
                             continue
                         ats = fl.origins(l, passthrough=("branch", "from_residual", "unwrap", "try_collect", "collect", "map", "into_iter", "iter"))
                         via = any(a[0] == "call" and (a[3].get("callee") in ("object::DeepClone::deep_clone",) or (a[3].get("callee") or "").startswith("object::Cloner::") or
-                                                      last_seg(a[1]) in ("try_collect", "collect", "new", "stream_data", "clone")) for a in ats)
+                                                      last_seg(a[1]) in ("try_collect", "collect", "new", "stream_data")) for a in ats)
                         if not via:
                             bad.append(s[2][1].get("variant"))
         ctx.check(not bad, "C20-G1", self_s + "#no-verbatim", "parts %s are copied verbatim" % bad, b["span"], detail="children via deep_clone")
+    # Primitive: the variants that carry references (Reference, Array, Dictionary, Stream) each have an arm of their own - a catch-all that
+    # returns `self.clone()` builds no aggregate and would slip through the check above
+    pb = f.impl_method("object::DeepClone", "primitive::Primitive", "deep_clone")
+    if pb is not None:
+        from tables import enum_switches
+        sws = enum_switches(pb, "primitive::Primitive", f)
+        vs = {v["name"]: v["vi"] for v in f.adts["primitive::Primitive"]["variants"]}
+        okp = False
+        missing = []
+        if sws:
+            i0, pl0, arms0, other0 = sws[0]
+            missing = [n0 for n0 in ("Reference", "Array", "Dictionary", "Stream") if vs[n0] not in arms0 or arms0[vs[n0]] == other0]
+            okp = not missing
+        ctx.check(okp, "C20-G1", "primitive::Primitive#carrier-arms", "the variants %s have no arm of their own in Primitive::deep_clone: they fall into a catch-all, which can only "
+                  "copy them verbatim" % missing, pb["span"], detail="Reference / Array / Dictionary / Stream handled explicitly")
+    # the page assembled for the target document: every attribute is the deep_clone of the source page's attribute
+    cp = f.body("build::PageBuilder::clone_page")
+    if cp is None:
+        ctx.lost("C20-G1", "build::PageBuilder::clone_page")
+    else:
+        cfl = Flow(cp)
+        badf = []
+        nf = 0
+        for i, j, st in F.stmts(cp):
+            if st[0] == "assign" and st[2][0] == "aggregate" and st[2][1].get("adt") == "build::PageBuilder":
+                for fname, op in zip(st[2][1].get("fields", []), st[2][2]):
+                    l = F.op_local(op)
+                    if l is None:
+                        continue
+                    nf += 1
+                    ats = cfl.origins(l, passthrough=("branch", "from_residual", "unwrap", "try_collect", "collect", "map", "into_iter", "iter", "unwrap_or_default", "ok_or"))
+                    via = any(a[0] == "call" and (a[3].get("callee") == "object::DeepClone::deep_clone" or (a[3].get("callee") or "").startswith("object::Cloner::") or
+                                                  last_seg(a[1]) in ("deep_clone_op", "deep_clone")) for a in ats)
+                    plain = any(a[0] == "call" and last_seg(a[1]) in ("clone", "to_owned", "to_vec") and "Arc" not in a[1] for a in ats)
+                    # only attributes whose type can hold a reference need the cloner (boxes and the rotation are plain numbers; the operations and
+                    # the resources are rebuilt by deep_clone_op, see C20-SIB)
+                    carrier = any(w in cp["locals"][l]["s"] for w in ("Primitive", "Dictionary", "Ref<", "MaybeRef", "Lazy", "Stream", "RcRef"))
+                    if carrier and not via:
+                        badf.append(fname)
+        ctx.floor("C20-G1", nf, 8, "attributes of the page assembled by clone_page")
+        ctx.check(not badf, "C20-G1", "PageBuilder::clone_page#fields", "the attributes %s of the imported page are not deep-cloned: references in them keep the object numbers of "
+                  "the source document" % badf, cp["span"], detail="every attribute via deep_clone")
 
 
 def rule_streams(ctx, f):
@@ -321,6 +379,9 @@ def rule_panic(ctx, f, imp):
             for bi, t in F.calls(bb):
                 nm = F.callee_name(t)
                 if nm.startswith(PANICS) or (last_seg(nm) in ("unwrap", "expect") and not t.get("resolved_local")):
+                    bad.append("%s at %s" % (nm, t["span"]))
+                # `map[key]` / `vec[i]` / `slice[a..b]`: Index::index panics on a missing key or an index out of range
+                if last_seg(nm) in ("index", "index_mut") and ("ops::Index" in nm or "Index" in (t.get("trait") or "") or "index::Index" in nm):
                     bad.append("%s at %s" % (nm, t["span"]))
             for blk in bb["blocks"]:
                 if blk["term"]["k"] == "assert" and not blk["term"]["assert"].startswith(("Misaligned", "NullPointer")):
